@@ -28,9 +28,19 @@ CHECKS = {
             "Trusts the reference lexer (written from grammar.md; three word-boundary habits of the implementation are pinned, see DESIGN "
             "C11). Columns are accepted in bytes or characters. Token sequences longer than 3 are covered only through the 33 canonical statements.",
             "DESIGN.md section 4 C11"),
+    "C04": ("exploration",
+            "bounded-exhaustive input enumeration through every compiler stage in watched worker processes (panic / abort / hang oracle)",
+            "Every token tuple of length <= 3 over the 69-token vocabulary (bare and bound by let), operator x edge-operand grids, cast and range "
+            "grids, every format template of length <= 4 over 6 characters, every raw text of length <= 3 over 14 characters in 4 contexts, 16 "
+            "nesting constructs at every depth 1..64, every shipped .ucg file and UTF-8 fuzz-corpus entry and every single-token "
+            "delete/duplicate/swap/replace mutation of the small ones run through tokenize, parse, AstPrinter, Checker, translate+VM and all 8 "
+            "converters, each stage under catch_unwind with an abort- and hang-attributing watchdog. Exhaustive within those bounds.",
+            "Harness and CLI are built with overflow-checks on (the profile of the repository's own tests). Arbitrary 4 KiB texts are far beyond "
+            "any exhaustive bound and are not claimed; a 20 s per-input watchdog is the only time-based verdict and every hang is re-run alone.",
+            "DESIGN.md section 4 C04"),
 }
 
-CLAIMED = ["C02", "C11"]
+CLAIMED = ["C02", "C04", "C11"]
 
 NOT_YET = "check not built yet in this round; design in DESIGN.md section 4 (bounded-exhaustive enumeration applies)"
 
